@@ -54,6 +54,7 @@ def file_backends(A):
 def run_unit(A, unit, rep, tier):
     kind, _ = unit
     if kind == "writers":
+        check_mode_plumbing(A, rep)
         return check_writers(A, rep)
     for func, cls in file_backends(A).items():
         for threading, wc, atomic in ((True, False, True), (False, True, True), (True, True, True), (False, False, False)):
@@ -89,6 +90,13 @@ def run_unit(A, unit, rep, tier):
             else:
                 rep.fail("C08.a", norm_key("C08.a", func.qualname, "payload"), f"{func.qualname}: what is written is not (only) the complete serialisation computed up front", [], label)
             opens = [n for n in lv if n.kind == "call_ext" and n["callee"] == "builtins.open" and is_res_write(n)]
+            textmode = [n for n in opens if "b" not in open_mode(n)]
+            if textmode:
+                n = textmode[0]
+                rep.fail("C08.a", norm_key("C08.a", func.qualname, "text-mode"),
+                         f"{func.qualname}: `{n.stmt}` opens the file in text mode, so part of the serialisation (the encoding) happens inside write() after the file was opened / truncated; unencodable content damages the file", [n.where() + ": " + n.stmt], label)
+            else:
+                rep.ok("C08.a", f"C08.a {label}: files are written in binary mode (all encoding happens before any file is touched)")
             direct = [n for n in opens if n["args"] and n["args"][0] == Val("field", selfv, "_filename")]
             repl = [n for n in lv if n.kind == "call_ext" and n["callee"] in ("os.replace", "os.rename")]
             if not atomic:
@@ -141,6 +149,48 @@ def run_unit(A, unit, rep, tier):
                 rep.ok("C08.b", f"C08.b {label}: fresh temp file in the target's directory, written, closed, then atomically renamed over the target")
             for code, msg in probs:
                 rep.fail("C08.b", norm_key("C08.b", func.qualname, code), f"{func.qualname} (atomic mode): {msg}", [], label)
+
+
+def check_mode_plumbing(A, rep):
+    """(e) write_concern given to the constructor reaches the field the writer tests, for every concrete class;
+    (c') enable_multithreading() after disable_multithreading() restores the class state atomic mode depends on."""
+    from ..model import DefEval, Method, Prop
+    import copy
+    for func, cls0 in file_backends(A).items():
+        for cls in A.concrete():
+            owner, v = A.model.lookup(cls, "_save_to_resource")
+            if v is None or v.func is not func:
+                continue
+            owner, init = A.model.lookup(cls, "__init__")
+            b, g = A.graph(cls, "__init__", "root", "none", kwargs={"parent": Val("const", None)})
+            rep.context(g.label, True)
+            st = [n for n in live(g) if n.kind == "attr_store" and n["name"] == "_write_concern"]
+            good = [n for n in st if n["value"] == Val("param", "write_concern")]
+            if good and len(good) == len(st):
+                rep.ok("C08.e", f"C08.e {cls.name}: the constructor's write_concern argument is what _save_to_resource tests")
+            else:
+                got = show(st[0]["value"]) if st else "nothing"
+                rep.fail("C08.e", norm_key("C08.e", cls.name, "write_concern"),
+                         f"{cls.name}(write_concern=...) does not reach the instance field the writer tests (stored: {got}): write_concern=True is silently ignored for this class and saves are not crash-safe when threading is off",
+                         [init.func.loc], cls.name)
+    # round trip on a model of its own
+    from ..model import Model
+    m2 = Model(A.root, threading=True)
+    for cls in m2.concrete_classes():
+        if m2.lookup(cls, "_supports_threading")[1] is not True:
+            continue
+        before = {k: type(m2.lookup(cls, k)[1]).__name__ + ":" + str(m2.lookup(cls, k)[1] if isinstance(m2.lookup(cls, k)[1], bool) else "") for k in ("_thread_lock", "_threading_support_is_active", "_BUFFER_LOCK")}
+        for nm in ("disable_multithreading", "enable_multithreading"):
+            o, f = m2.lookup(cls, nm)
+            if isinstance(f, Method):
+                DefEval(m2).call(f.func, cls, [], {})
+        after = {k: type(m2.lookup(cls, k)[1]).__name__ + ":" + str(m2.lookup(cls, k)[1] if isinstance(m2.lookup(cls, k)[1], bool) else "") for k in ("_thread_lock", "_threading_support_is_active", "_BUFFER_LOCK")}
+        if before == after:
+            rep.ok("C08.c", f"C08.c {cls.name}: disable_multithreading(); enable_multithreading() restores the threading state ({after})")
+        else:
+            diff = {k: (before[k], after[k]) for k in before if before[k] != after[k]}
+            rep.fail("C08.c", norm_key("C08.c", "roundtrip", sorted(diff)[0]),
+                     f"{cls.name}: after disable_multithreading(); enable_multithreading() the class state differs from the initial one {diff}: atomic-write mode (or locking) is not restored", [], cls.name)
 
 
 def scan_writers(model, modules):
